@@ -1,4 +1,451 @@
 import Tfv.Model
+import Tfv.Proofs.GraphExamples
+import Tfv.Proofs.WorkflowPerm
+import Tfv.Proofs.WorkflowMain
+import Tfv.Proofs.WorkflowLink
+import Tfv.Proofs.WorkflowRecord
+/-!
+# C12 — the graph of a workflow
+
+Statements only; the proofs are in `Tfv/Proofs/Workflow*.lean`.
+-/
 namespace Tfv.C12
-theorem placeholder : True := trivial
+open Tfv Tfv.GraphEx
+
+/-- a workflow in which resource 1 is consumed by two tools: `r1 = f r0`, `r2 = g r1`, `r3 = h r1 r2` -/
+def wops2 : List OperatorDecl := wops ++ [⟨"h", ⟨0, 0, .app FUN [.app 6 [], .app FUN [.app 7 [], .app 7 []]], []⟩⟩]
+def wf2 : Wf := { sources := [0], apps := [
+  { out := 1, toks := ["f", "1"], inputs := [0] },
+  { out := 2, toks := ["g", "1"], inputs := [1] },
+  { out := 3, toks := ["h", "1", "2"], inputs := [1, 2] }] }
+
+/-- the running example with its two applications listed in the other order -/
+def wf1r : Wf := { wf1 with apps := wf1.apps.reverse }
+
+theorem wf1r_perm : wf1.apps.Perm wf1r.apps := (List.reverse_perm _).symm
+theorem wf1_nodup : (wf1.apps.map (·.out)).Nodup := by decide
+
+/-! ## 1. The listing order of the tool applications -/
+
+/-- **Which application produces a resource does not depend on the listing order**, when no two applications
+have the same output. -/
+theorem C12_app_perm (w₁ w₂ : Wf) (hp : w₁.apps.Perm w₂.apps) (hn : (w₁.apps.map (·.out)).Nodup) (r : Nat) :
+    w₁.app? r = w₂.app? r :=
+  app?_perm w₁ w₂ hp hn r
+
+example : wf1.app? 2 = wf1r.app? 2 ∧ (wf1.app? 2).map (·.toks) = some ["g", "1"] :=
+  ⟨C12_app_perm wf1 wf1r wf1r_perm wf1_nodup 2, by decide⟩
+
+/-- **The target** (the unique tool output that no tool consumes, or the error that there is none) does not
+depend on the listing order. -/
+theorem C12_target_perm (w₁ w₂ : Wf) (hp : w₁.apps.Perm w₂.apps) : w₁.target = w₂.target :=
+  target_perm w₁ w₂ hp
+
+example : wf1.target = wf1r.target := C12_target_perm wf1 wf1r wf1r_perm
+example : wf1.target.toOption = some 2 ∧ wf1r.target.toOption = some 2 := by decide
+
+/-- **The expression of a resource** is computed from `app?` and the sources only, hence does not depend on the
+listing order. -/
+theorem C12_wfExpr_perm (P : PLang) (ops : List OperatorDecl) (w₁ w₂ : Wf) (pt : Bool)
+    (hp : w₁.apps.Perm w₂.apps) (hn : (w₁.apps.map (·.out)).Nodup) (hs : w₁.sources = w₂.sources)
+    (n : Nat) (s : WState) (r : Nat) : wfExpr P ops w₁ pt n s r = wfExpr P ops w₂ pt n s r :=
+  congrFun (congrFun (wfExpr_congr P ops w₁ w₂ pt hs (app?_perm w₁ w₂ hp hn) n) s) r
+
+/-- the same for the graph nodes of a resource -/
+theorem C12_wfNode_perm (G : GLang) (c : GCfg) (w₁ w₂ : Wf) (root : Node) (exprs : List (Nat × TExpr))
+    (hp : w₁.apps.Perm w₂.apps) (hn : (w₁.apps.map (·.out)).Nodup) (hs : w₁.sources = w₂.sources)
+    (hnm : w₁.names = w₂.names) (n : Nat) (g : GState) (r : Nat) :
+    wfNode G c w₁ root exprs n g r = wfNode G c w₂ root exprs n g r :=
+  congrFun (congrFun (wfNode_congr G c w₁ w₂ root exprs hs hnm (app?_perm w₁ w₂ hp hn) n) g) r
+
+/-- **Every resource's expression is computed once.** A successful `wfExpr` call extends the memo table by entries
+for pairwise distinct resources that had no entry, each a tool expression tagged with its resource, and returns the
+table's entry for the resource asked for. (In particular a successful call never meets a cycle of the workflow: on a
+cyclic workflow the model runs out of fuel, where Python would exceed its recursion limit.)
+
+Since the model reproduces `e.fix()` of a producer when a stand-in source is made for it (no passthrough), an entry
+may later be *replaced* by its fixed tree. `MemoExt s s' l` (`Tfv/Proofs/WorkflowMemo.lean`) therefore says: the keys
+of `s'` are the keys of `s` followed by the (pairwise distinct, previously absent) keys of `l`; `l` lists the new
+entries as they are in `s'`, each of the form `.shared r _` with its own key `r`; and every entry that `s` had is
+still there under its key, possibly replaced by an expression of the same shape (`TExpr.sig`: the same source id or
+tag, the same tagged sub-expressions — only types differ). -/
+theorem C12_expr_once (P : PLang) (ops : List OperatorDecl) (w : Wf) (pt : Bool) (n : Nat) (s : WState) (r : Nat)
+    (s' : WState) (e : TExpr) (h : wfExpr P ops w pt n s r = .ok (s', e)) :
+    (∃ l, MemoExt s s' l) ∧ s'.expr? r = some e :=
+  wfExpr_main P ops w pt n s r s' e h
+
+/-- … and with passthrough no entry is ever replaced: the memo table only grows. -/
+theorem C12_expr_once_passthrough (P : PLang) (ops : List OperatorDecl) (w : Wf) (n : Nat) (s : WState) (r : Nat)
+    (s' : WState) (e : TExpr) (h : wfExpr P ops w true n s r = .ok (s', e)) :
+    (∃ l, s'.exprs = s.exprs ++ l) ∧ s'.expr? r = some e :=
+  wfExpr_exact_true P ops w n s r s' e h
+
+-- non-vacuity, and a replacement that is visible: without passthrough, the entry of resource 1 in the diamond
+-- workflow (defined in section 2 below) right after its creation and after the target has been computed differ (the
+-- type of its source has been fixed from a variable to `A`), but have the same shape
+#guard
+  let wf2' : Wf := { sources := [0], apps := [
+    { out := 1, toks := ["f", "1"], inputs := [0] },
+    { out := 2, toks := ["g", "1"], inputs := [1] },
+    { out := 3, toks := ["h", "1", "2"], inputs := [1, 2] }] }
+  let ops2 := wops ++ [⟨"h", ⟨0, 0, .app FUN [.app 6 [], .app FUN [.app 7 [], .app 7 []]], []⟩⟩]
+  let start : WState := match sourceTypes wP ops2 wf2' {} wf2'.apps [] with
+    | .ok (xs0, st) => { xs := (wfSrcTable wf2' xs0 st).1, exprs := (wfSrcTable wf2' xs0 st).2 }
+    | .error _ => {}
+  let e1 := (wfExpr wP ops2 wf2' false 5 start 1).toOption.bind (fun p => p.1.expr? 1)
+  let e3 := (wfExpr wP ops2 wf2' false 5 start 3).toOption.bind (fun p => p.1.expr? 1)
+  e1.isSome && e3.isSome && toString (repr e1) != toString (repr e3) && e1.map (·.sig) == e3.map (·.sig)
+
+/-- **The graph of a workflow depends on the listing order only through `source_types`**: two listings of the
+same applications for which `source_types` returns the same store and the same recorded types give the same
+graph, output node and node map. (`sourceTypes` threads the inference store through the applications in listing
+order, so the hypothesis cannot be dropped as a statement about terms: see `C12_sourceTypes_order_visible`.) -/
+theorem C12_order_partial (P : PLang) (G : GLang) (ops : List OperatorDecl) (c : GCfg) (pt : Bool) (w₁ w₂ : Wf)
+    (hp : w₁.apps.Perm w₂.apps) (hn : (w₁.apps.map (·.out)).Nodup)
+    (hs : w₁.sources = w₂.sources) (hnm : w₁.names = w₂.names)
+    (hst : sourceTypes P ops w₁ {} w₁.apps [] = sourceTypes P ops w₂ {} w₂.apps []) :
+    addWorkflow P G ops c pt w₁ = addWorkflow P G ops c pt w₂ :=
+  addWorkflow_perm P G ops c pt w₁ w₂ hp hn hs hnm hst
+
+-- the hypothesis on `sourceTypes` holds for the two listings of the example (checked by evaluation: the parser
+-- does not reduce in the kernel)
+#guard toString (repr (sourceTypes wP wops wf1 {} wf1.apps [])) == toString (repr (sourceTypes wP wops wf1r {} wf1r.apps []))
+#guard (sourceTypes wP wops wf1 {} wf1.apps []).toOption.isSome
+
+/-! ## 1b. `source_types` does see the listing order
+
+`sourceTypes` threads the inference store through the applications in listing order: already the numbers of the
+type variables it allocates depend on the order, and so do the recorded types when they contain variables. When the
+uses of a source are incomparable, even the recorded *closed* type depends on the order (the first use wins). The
+parser does not reduce in the kernel, so the two evaluations are checked by `#guard`; the theorems say what follows
+from them. -/
+
+/-- tool `a` annotates its input with `F(_)`; tool `b` consumes `a`'s output -/
+def appA : WfApp := { out := 1, toks := ["f", "(", "1", ":", "F", "(", "_", ")", ")"], inputs := [0] }
+def appB : WfApp := { out := 2, toks := ["g", "1"], inputs := [1] }
+def wfAB : Wf := { sources := [0], apps := [appA, appB] }
+def wfBA : Wf := { sources := [0], apps := [appB, appA] }
+
+/-- **The listing order is visible in `sourceTypes`.** For the two listings `[a, b]` and `[b, a]` of the same two
+applications the recorded type of source 0 is `F(var 1)` resp. `F(var 3)`: different terms, so the hypothesis of
+`C12_order_partial` fails for them although the workflows are the same up to the listing order. -/
+theorem C12_sourceTypes_order_visible
+    (h₁ : recordedIs (sourceTypes wP wops wfAB {} wfAB.apps []) 0 (.app 8 [.var 1]) = true)
+    (h₂ : recordedIs (sourceTypes wP wops wfBA {} wfBA.apps []) 0 (.app 8 [.var 3]) = true) :
+    wfAB.apps.Perm wfBA.apps ∧ (wfAB.apps.map (·.out)).Nodup ∧ wfAB.sources = wfBA.sources ∧
+      sourceTypes wP wops wfAB {} wfAB.apps [] ≠ sourceTypes wP wops wfBA {} wfBA.apps [] :=
+  ⟨List.Perm.swap _ _ _, by decide, rfl, recordedIs_ne h₁ h₂ (by intro h; cases h)⟩
+
+#guard recordedIs (sourceTypes wP wops wfAB {} wfAB.apps []) 0 (.app 8 [.var 1])
+#guard recordedIs (sourceTypes wP wops wfBA {} wfBA.apps []) 0 (.app 8 [.var 3])
+
+/-- two tools annotate the same source with the incomparable types `A` and `F(A)` -/
+def appC : WfApp := { out := 1, toks := ["f", "(", "1", ":", "A", ")"], inputs := [0] }
+def appD : WfApp := { out := 2, toks := ["h", "(", "1", ":", "F", "(", "A", ")", ")", "2"], inputs := [0, 1] }
+def wfCD : Wf := { sources := [0], apps := [appC, appD] }
+def wfDC : Wf := { sources := [0], apps := [appD, appC] }
+
+/-- **A semantic difference.** With incomparable uses the recorded closed type of a source is the one of the use
+listed first: `A` for `[c, d]`, `F(A)` for `[d, c]`. (Such a workflow is ill-typed, and `addWorkflow` fails on both
+listings afterwards; with pairwise comparable uses the recorded type is the most specific one in either order, see
+`C12_record_order`.) -/
+theorem C12_sourceTypes_order_semantic
+    (h₁ : recordedIs (sourceTypes wP wops2 wfCD {} wfCD.apps []) 0 (.app 5 []) = true)
+    (h₂ : recordedIs (sourceTypes wP wops2 wfDC {} wfDC.apps []) 0 (.app 8 [.app 5 []]) = true) :
+    wfCD.apps.Perm wfDC.apps ∧
+      sourceTypes wP wops2 wfCD {} wfCD.apps [] ≠ sourceTypes wP wops2 wfDC {} wfDC.apps [] :=
+  ⟨List.Perm.swap _ _ _, recordedIs_ne h₁ h₂ (by intro h; cases h)⟩
+
+#guard recordedIs (sourceTypes wP wops2 wfCD {} wfCD.apps []) 0 (.app 5 [])
+#guard recordedIs (sourceTypes wP wops2 wfDC {} wfDC.apps []) 0 (.app 8 [.app 5 []])
+#guard (addWorkflow wP exG wops2 {} true wfCD).toOption.isNone && (addWorkflow wP exG wops2 {} true wfDC).toOption.isNone
+
+/-- **`source_types` is a fold of one recording step over the applications in listing order**: the application's
+text is parsed without unification over fresh sources, fixed, and every input's type — followed in the resulting
+store `σ3` — is recorded by `recordUse` (`Tfv/Proofs/WorkflowRecord.lean`, the body of the model's fold). -/
+theorem C12_sourceTypes_fold (P : PLang) (ops : List OperatorDecl) (w : Wf) (s : XState) (a : WfApp)
+    (rest : List WfApp) (acc : List (Nat × Term)) :
+    sourceTypes P ops w s (a :: rest) acc =
+      match parseExprToks P (untypedBuilder P.types ops) (mkInputs a.inputs.length s).2 (mkInputs a.inputs.length s).1 a.toks with
+      | .error e => .error (.composition e)
+      | .ok (s2, e) =>
+        match fixExpr P.types s2.store e with
+        | .error err => .error (.typing err)
+        | .ok (σ3, _) =>
+          sourceTypes P ops w { s2 with store := σ3 } rest
+            ((a.inputs.zip (mkInputs a.inputs.length s).2).foldl (recordUse w P.types σ3) acc) :=
+  sourceTypes_cons P ops w s a rest acc
+
+/-- … and the recording steps of one application are `recordAbs` steps, with the comparison evaluated in `σ3`, over
+the uses that say something (a source of the workflow, a type that is not a variable). -/
+theorem C12_record_steps (w : Wf) (L : Lang) (σ3 : Store) (zs : List (Nat × TExpr)) (acc : List (Nat × Term)) :
+    zs.foldl (recordUse w L σ3) acc = (sayingUses w σ3 zs).foldl (recordAbs (recordCmp L σ3)) acc :=
+  recordUse_foldl w L σ3 zs acc
+
+/-- **The recording discipline is order independent on comparable uses** (the part of "each source gets the most
+general type acceptable to all of its uses" that does not involve the store): if the comparison `lt` is a strict
+total order on the types used (a chain of subtypes), then after recording the uses in any order each source has
+the same recorded type — the least one. What this does *not* cover is that the model evaluates the comparison, and
+follows the types, in a store that depends on the listing order (`C12_sourceTypes_order_visible`). -/
+theorem C12_record_order (lt : Term → Term → Bool) (S : Term → Prop) (ho : StrictTotalOn lt S)
+    (l₁ l₂ : List (Nat × Term)) (hp : l₁.Perm l₂) (hS : ∀ u ∈ l₁, S u.2) (r : Nat) :
+    (((l₁.foldl (recordAbs lt) []).find? (fun p => p.1 == r)).map (·.2)) =
+      (((l₂.foldl (recordAbs lt) []).find? (fun p => p.1 == r)).map (·.2)) :=
+  recordAbs_perm lt S ho l₁ l₂ hp hS r
+
+/-- a comparison that orders `B` below `A` (as `recordCmp exL σ` does, checked by `#guard` below) -/
+def ltEx (a b : Term) : Bool := Term.beq a tmB && Term.beq b tmA
+
+theorem ltEx_order : StrictTotalOn ltEx (fun t => t = tmA ∨ t = tmB) where
+  irrefl := by rintro t (rfl | rfl) <;> decide +kernel
+  total := by
+    rintro s t (rfl | rfl) (rfl | rfl) hne
+    · exact absurd rfl hne
+    · right; decide +kernel
+    · left; decide +kernel
+    · exact absurd rfl hne
+  asymm := by
+    rintro s t (rfl | rfl) (rfl | rfl) h <;> first | decide +kernel | (exfalso; revert h; decide +kernel)
+  trans := by
+    rintro s t u (rfl | rfl) (rfl | rfl) (rfl | rfl) h1 h2 <;>
+      first | decide +kernel | (exfalso; revert h1; decide +kernel) | (exfalso; revert h2; decide +kernel)
+
+example : (([(0, tmA), (0, tmB)].foldl (recordAbs ltEx) []).find? (fun p => p.1 == 0)).map (·.2)
+    = (([(0, tmB), (0, tmA)].foldl (recordAbs ltEx) []).find? (fun p => p.1 == 0)).map (·.2) :=
+  C12_record_order ltEx _ ltEx_order _ _ (List.Perm.swap _ _ _) (by
+    intro u hu
+    simp only [List.mem_cons, List.not_mem_nil, or_false] at hu
+    rcases hu with rfl | rfl
+    · exact .inl rfl
+    · exact .inr rfl) 0
+
+-- the model's comparison on the chain `C < B < A` of the example language, and on incomparable types
+#guard recordCmp exL {} tmB tmA && !recordCmp exL {} tmA tmB && !recordCmp exL {} tmA tmA && recordCmp exL {} tmC tmB
+  && recordCmp exL {} tmC tmA && !recordCmp exL {} tmB tmC
+#guard !recordCmp exL {} (tmF tmA) tmA && !recordCmp exL {} tmA (tmF tmA)
+
+/-! ## 2. The node map
+
+`addWorkflow` returns the graph `g`, the output node `out` and the map `m` from workflow resources to concept
+nodes. The hypothesis `w.sources.Nodup` says that the sources are listed once each (in Python they form a set). -/
+
+
+theorem wf2_sources : wf2.sources.Nodup := by decide
+
+/-- **Every workflow resource maps to at most one concept node**, and that node is the one registered in the graph
+for the resource's expression object: for a tool output the node registered under the resource itself (whatever
+the number of tools consuming it), for a source the node of a source expression. -/
+theorem C12_nodemap_functional (P : PLang) (G : GLang) (ops : List OperatorDecl) (c : GCfg) (pt : Bool) (w : Wf)
+    (g : GState) (out : Nat) (m : List (Nat × Nat)) (hn : w.sources.Nodup)
+    (h : addWorkflow P G ops c pt w = .ok (g, out, m)) :
+    (m.map (·.1)).Nodup ∧ ∀ r k, (r, k) ∈ m →
+      (r ∉ w.sources ∧ (r, k) ∈ g.sharedNodes) ∨ (r ∈ w.sources ∧ ∃ id, (id, k) ∈ g.srcNodes) :=
+  addWorkflow_nodemap_functional P G ops c pt w g out m hn h
+
+/-- **The resources that have a node are exactly the sources and the resources the target depends on**
+(`SReach w tgt r`: `r` is reached from the target by going from a tool output to one of the tool's inputs; a
+source has no inputs). In particular every resource for which `add_workflow` computed an expression has a node. -/
+theorem C12_nodemap_total (P : PLang) (G : GLang) (ops : List OperatorDecl) (c : GCfg) (pt : Bool) (w : Wf)
+    (g : GState) (out : Nat) (m : List (Nat × Nat)) (hn : w.sources.Nodup)
+    (h : addWorkflow P G ops c pt w = .ok (g, out, m)) :
+    ∃ tgt, w.target = .ok tgt ∧ ∀ r, (∃ k, (r, k) ∈ m) ↔ (r ∈ w.sources ∨ SReach w tgt r) :=
+  addWorkflow_nodemap_total P G ops c pt w g out m hn h
+
+-- the hypotheses hold for the example, with and without passthrough: resource 1, consumed twice, has the one node 1
+#guard ((addWorkflow wP exG wops2 {} true wf2).toOption.map (fun p => (p.2, p.1.sharedNodes)))
+  == some ((5, [(0, 0), (1, 1), (2, 3), (3, 5)]), [(1, 1), (2, 3), (3, 5)])
+#guard ((addWorkflow wP exG wops2 {} false wf2).toOption.map (fun p => (p.2, p.1.sharedNodes)))
+  == some ((5, [(0, 0), (1, 1), (2, 3), (3, 5)]), [(1, 1), (2, 3), (3, 5)])
+example : wf2.sources.Nodup ∧ SReach wf2 3 1 :=
+  ⟨wf2_sources, .step ⟨by decide, _, rfl, by decide⟩ (.refl 1)⟩
+
+/-- **A resource consumed more than once gets one node**: adding a tagged expression whose tag already has a node
+returns that node and leaves the graph unchanged. -/
+theorem C12_shared_once (G : GLang) (c : GCfg) (root : Node) (origin : Option Node) (g : GState) (k : Nat)
+    (e : TExpr) (cur : Option Nat) (inter : Bool) (n : Nat)
+    (h : (g.sharedNodes.find? (fun p => p.1 == k)).map (·.2) = some n) :
+    addExpr G c root origin g (.shared k e) cur inter = .ok (g, n) :=
+  addExpr_shared_hit G c root origin g k e cur inter n h
+
+/-- … and the first visit registers the node under the tag (provided the expression does not contain its own tag,
+which holds for every expression `add_workflow` builds) -/
+theorem C12_shared_first (G : GLang) (c : GCfg) (root : Node) (origin : Option Node) (g : GState) (k : Nat)
+    (e : TExpr) (cur : Option Nat) (inter : Bool) (g' : GState) (n : Nat) (hk : k ∉ e.sharedKeys)
+    (h : addExpr G c root origin g (.shared k e) cur inter = .ok (g', n)) :
+    (g'.sharedNodes.find? (fun p => p.1 == k)).map (·.2) = some n :=
+  addExpr_shared_registers G c root origin g k e cur inter g' n hk h
+
+example : addExpr exG {} root none { sharedNodes := [(1, 7)] } (.shared 1 ex1) none false
+    = .ok ({ sharedNodes := [(1, 7)] }, 7) :=
+  C12_shared_once exG {} root none _ 1 ex1 none false 7 rfl
+
+/-! ## 3. Marks -/
+
+/-- **The output is marked**: the graph contains `workflow tf:output out`, and `out` is the node of the target
+resource. -/
+theorem C12_output_marked (P : PLang) (G : GLang) (ops : List OperatorDecl) (c : GCfg) (pt : Bool) (w : Wf)
+    (g : GState) (out : Nat) (m : List (Nat × Nat)) (hn : w.sources.Nodup)
+    (h : addWorkflow P G ops c pt w = .ok (g, out, m)) :
+    (Node.res "workflow", Node.tf "output", Node.b out) ∈ g.triples ∧ ∃ tgt, w.target = .ok tgt ∧ (tgt, out) ∈ m :=
+  addWorkflow_output_marked P G ops c pt w g out m hn h
+
+/-- **Every source of the workflow is marked as an input**: it has a node `k` and the graph contains
+`workflow tf:input k`. -/
+theorem C12_inputs_marked (P : PLang) (G : GLang) (ops : List OperatorDecl) (c : GCfg) (pt : Bool) (w : Wf)
+    (g : GState) (out : Nat) (m : List (Nat × Nat)) (hn : w.sources.Nodup)
+    (h : addWorkflow P G ops c pt w = .ok (g, out, m)) :
+    ∀ r ∈ w.sources, ∃ k, (r, k) ∈ m ∧ (Node.res "workflow", Node.tf "input", Node.b k) ∈ g.triples :=
+  addWorkflow_inputs_marked P G ops c pt w g out m hn h
+
+/-- **The class**: with `with_classes`, the workflow is a `tf:Transformation`. -/
+theorem C12_class (P : PLang) (G : GLang) (ops : List OperatorDecl) (c : GCfg) (pt : Bool) (w : Wf)
+    (g : GState) (out : Nat) (m : List (Nat × Nat)) (hc : c.withClasses = true)
+    (h : addWorkflow P G ops c pt w = .ok (g, out, m)) :
+    (Node.res "workflow", Node.rdf "type", Node.tf "Transformation") ∈ g.triples :=
+  addWorkflow_class P G ops c pt w g out m hc h
+
+#guard ((addWorkflow wP exG wops2 {} true wf2).toOption.map (fun p => p.1.triples.filter (fun t =>
+    t.1 == Node.res "workflow" && (t.2.1 == .tf "input" || t.2.1 == .tf "output" || t.2.1 == .rdf "type"))))
+  == some [(.res "workflow", .tf "input", .b 0), (.res "workflow", .tf "output", .b 5),
+    (.res "workflow", .rdf "type", .tf "Transformation")]
+
+/-! ## 4. Inlining -/
+
+/-- the state `add_workflow` starts `wfExpr` from: the store left by `source_types`, one source per workflow source -/
+def startState (ops : List OperatorDecl) (w : Wf) : WState :=
+  match sourceTypes wP ops w {} w.apps [] with
+  | .ok (xs0, st) => { xs := (wfSrcTable w xs0 st).1, exprs := (wfSrcTable w xs0 st).2 }
+  | .error _ => {}
+
+/-- **Inlining.** With passthrough, the expression computed for a tool output `r` (not yet in the memo table)
+is `.shared r e0` where `e0` is the tool's text parsed with, as numbered inputs, exactly the expressions that the
+memo table holds for the tool's input resources — so every numbered input of the text denotes the whole expression
+of the tool that produced it. If the table held only sources and tagged tool expressions before, each of these inputs
+is a source or the producing tool's expression tagged with the input resource.
+
+This describes the entry at the time it is *created*: `add_workflow` afterwards fixes the target expression, and the
+table the graph is built from holds the fixed trees (`C12_final_exprs`: same keys, same tags, other types). -/
+theorem C12_inline_structure (P : PLang) (ops : List OperatorDecl) (w : Wf) (n : Nat) (s : WState) (r : Nat)
+    (s' : WState) (e' : TExpr) (habs : s.expr? r = none) (h : wfExpr P ops w true (n+1) s r = .ok (s', e')) :
+    ∃ (a : WfApp) (inputs : List TExpr) (s1 : WState) (xs3 : XState) (e0 : TExpr),
+      w.app? r = some a ∧ e' = TExpr.shared r e0 ∧
+      parseExprToks P (typedBuilder P.types ops true) inputs s1.xs a.toks = .ok (xs3, e0) ∧
+      inputs.length = a.inputs.length ∧ (∀ p ∈ a.inputs.zip inputs, s'.expr? p.1 = some p.2) ∧
+      s'.expr? r = some e' ∧
+      ((∀ p ∈ s.exprs, p.2.IsSrc ∨ IsSharedOwn p) →
+        ∀ p ∈ a.inputs.zip inputs, p.2.IsSrc ∨ ∃ ei, p.2 = TExpr.shared p.1 ei) :=
+  wfExpr_inline P ops w n s r s' e' habs h
+
+-- non-vacuity: the target of the diamond workflow is not in the start table, and its expression is computed;
+-- it contains the expression of resource 1 twice (once directly, once inside the expression of resource 2)
+#guard (startState wops2 wf2).expr? 3 |>.isNone
+#guard ((wfExpr wP wops2 wf2 true 5 (startState wops2 wf2) 3).toOption.map (fun p => p.2.sharedKeys)) == some [3, 1, 2, 1]
+
+/-- **The tag is transparent**: for a graph in which tag `k` has no node yet, adding `.shared k e` gives the same
+graph (triples, edges, counters) and the same node as adding `e`, plus the registration of that node under `k`;
+and it fails exactly when adding `e` fails. Hence the graph of a workflow's target expression is the graph of the
+inlined expression, with one node per shared sub-expression. -/
+theorem C12_addExpr_shared_transparent (G : GLang) (c : GCfg) (root : Node) (origin : Option Node) (g : GState)
+    (k : Nat) (e : TExpr) (cur : Option Nat) (inter : Bool)
+    (h : (g.sharedNodes.find? (fun p => p.1 == k)).map (·.2) = none) :
+    (∀ g1 n, addExpr G c root origin g e cur inter = .ok (g1, n) →
+      addExpr G c root origin g (.shared k e) cur inter
+        = .ok ({ g1 with sharedNodes := g1.sharedNodes ++ [(k, n)] }, n)) ∧
+    (∀ err, addExpr G c root origin g e cur inter = .error err →
+      addExpr G c root origin g (.shared k e) cur inter = .error err) :=
+  addExpr_shared_transparent G c root origin g k e cur inter h
+
+/-- the configuration without type annotations (so that the kernel can evaluate `addExpr`: `normT` is defined by
+well-founded recursion) -/
+def cfgNoTypes : GCfg := { withTypes := false }
+
+example : ∃ g1, addExpr exG cfgNoTypes root none (initGraph exG cfgNoTypes) ex1 none false = .ok (g1, 0) ∧
+    addExpr exG cfgNoTypes root none (initGraph exG cfgNoTypes) (.shared 9 ex1) none false
+      = .ok ({ g1 with sharedNodes := g1.sharedNodes ++ [(9, 0)] }, 0) := by
+  have h0 : ∃ g1, addExpr exG cfgNoTypes root none (initGraph exG cfgNoTypes) ex1 none false = .ok (g1, 0) := by
+    have : (addExpr exG cfgNoTypes root none (initGraph exG cfgNoTypes) ex1 none false).toOption.map (·.2) = some 0 := by
+      decide +kernel
+    cases hx : addExpr exG cfgNoTypes root none (initGraph exG cfgNoTypes) ex1 none false with
+    | error e => rw [hx] at this; cases this
+    | ok p =>
+      rw [hx] at this
+      simp only [Except.toOption, Option.map_some, Option.some.injEq] at this
+      exact ⟨p.1, by rw [← this]⟩
+  obtain ⟨g1, h1⟩ := h0
+  exact ⟨g1, h1, (C12_addExpr_shared_transparent exG cfgNoTypes root none (initGraph exG cfgNoTypes) 9 ex1 none false
+    (by rw [initGraph_sharedNodes]; rfl)).1 g1 0 h1⟩
+
+/-! ## 5. Without passthrough -/
+
+/-- **The stages of `add_workflow`** (`WfRun`, defined in `Tfv/Proofs/WorkflowRun.lean`): a successful call
+determines the store and types of `source_types`, the target, the final memo state `ws` of `wfExpr` (with its
+`indirection` list) and the target expression `te`, the store `σf` and the fixed tree `te'` of the final
+`fixExpr … te = .ok (σf, te')`, the graph `g1` after the target's nodes have been made and the graph `g3` after the
+inputs have been marked. The graph is built with the language `wfGLang G σf = { G with store := σf }` from the table
+`wfFinalExprs ws te'`: the entry of a resource is the last `.shared r _` visited in `te'` if there is one, else the
+entry `wfExpr` left (`ws.exprs`), and every source occurrence in it gets the type its object carries after the last
+`fix()` that visited it (`setSrcTypes (srcTypesOf te' ws.srcTypes)`). -/
+theorem C12_run (P : PLang) (G : GLang) (ops : List OperatorDecl) (c : GCfg) (pt : Bool) (w : Wf)
+    (g : GState) (out : Nat) (m : List (Nat × Nat)) (h : addWorkflow P G ops c pt w = .ok (g, out, m)) :
+    ∃ xs0 stypes tgt ws te σf te' g1 g3, WfRun P G ops c pt w g out m xs0 stypes tgt ws te σf te' g1 g3 :=
+  addWorkflow_run P G ops c pt w g out m h
+
+/-- **The final `fix()` changes types only**: the table the graph is built from has the keys of the memo table
+`wfExpr` left, and under every key an expression with the same identity (`TExpr.head`: the source id, or the tag)
+containing the same tags (`KSim`, `Tfv/Proofs/WorkflowKeys.lean`). -/
+theorem C12_final_exprs {P : PLang} {G : GLang} {ops : List OperatorDecl} {c : GCfg} {pt : Bool} {w : Wf}
+    {g : GState} {out : Nat} {m : List (Nat × Nat)} {xs0 : XState} {stypes : List (Nat × Term)} {tgt : Nat}
+    {ws : WState} {te : TExpr} {σf : Store} {te' : TExpr} {g1 g3 : GState}
+    (run : WfRun P G ops c pt w g out m xs0 stypes tgt ws te σf te' g1 g3) (hn : w.sources.Nodup) :
+    (wfFinalExprs ws te').map (·.1) = ws.exprs.map (·.1) ∧
+      ∀ k v, ws.expr? k = some v →
+        ∃ v', alook (wfFinalExprs ws te') k = some v' ∧ v'.head = v.head ∧ v'.sharedKeys = v.sharedKeys :=
+  run.final_ksim hn
+
+-- non-vacuity (the run of the diamond workflow, with passthrough): the final table differs from the memo table, but
+-- not in keys, identities and tags
+#guard (match wfExpr wP wops2 wf2 true 5 (startState wops2 wf2) 3 with
+  | .ok (ws, te) =>
+    (match fixExpr wP.types ws.xs.store te with
+    | .ok (_, te') =>
+      toString (repr (wfFinalExprs ws te')) != toString (repr ws.exprs) &&
+        (wfFinalExprs ws te').map (fun p => (p.1, p.2.head, p.2.sharedKeys)) ==
+          ws.exprs.map (fun p => (p.1, p.2.head, p.2.sharedKeys))
+    | .error _ => false)
+  | .error _ => false)
+
+/-- **Stand-in sources are linked.** Without passthrough every tool input that is a tool output `r` is replaced by
+a fresh source `sid`, recorded as `(sid, r)`. For every such pair, `r` is not a source, has a node `t` (the one in
+the node map), and if the stand-in source has a node `s` — it has one when the tool's text mentions that input —
+the final graph has the edge `s —from→ t`. -/
+theorem C12_no_passthrough_link {P : PLang} {G : GLang} {ops : List OperatorDecl} {c : GCfg} {pt : Bool} {w : Wf}
+    {g : GState} {out : Nat} {m : List (Nat × Nat)} {xs0 : XState} {stypes : List (Nat × Term)} {tgt : Nat}
+    {ws : WState} {te : TExpr} {σf : Store} {te' : TExpr} {g1 g3 : GState}
+    (run : WfRun P G ops c pt w g out m xs0 stypes tgt ws te σf te' g1 g3) (hn : w.sources.Nodup)
+    (sid r : Nat) (h : (sid, r) ∈ ws.indirection) :
+    r ∉ w.sources ∧ ∃ t, (r, t) ∈ m ∧ (r, t) ∈ g1.sharedNodes ∧
+      ∀ s, (g1.srcNodes.find? (fun p => p.1 == sid)).map (·.2) = some s → (s, t) ∈ g.fd.frm :=
+  run.link hn sid r h
+
+/-- **Without passthrough a tool's expression is flat**: if the sources of the workflow have source expressions in
+the memo table, the expression computed for a tool output is `.shared r e0` where `e0` contains no other tool's
+expression (its inputs are sources: workflow sources or stand-ins). The connection to the producing tools is made by
+the `from` edges of `C12_no_passthrough_link` instead. -/
+theorem C12_no_passthrough_flat (P : PLang) (ops : List OperatorDecl) (w : Wf) (n : Nat) (s : WState) (r : Nat)
+    (s' : WState) (e' : TExpr) (hsrc : ∀ i ∈ w.sources, ∃ e, s.expr? i = some e ∧ e.IsSrc)
+    (habs : s.expr? r = none) (h : wfExpr P ops w false (n+1) s r = .ok (s', e')) :
+    ∃ e0, e' = TExpr.shared r e0 ∧ e0.sharedKeys = [] :=
+  wfExpr_flat P ops w n s r s' e' hsrc habs h
+
+#guard ((wfExpr wP wops2 wf2 false 5 (startState wops2 wf2) 3).toOption.map (fun p => p.2.sharedKeys)) == some [3]
+#guard wf2.sources.all (fun i => match (startState wops2 wf2).expr? i with | some (.src _ _ _) => true | _ => false)
+
+-- non-vacuity: three stand-in sources in the diamond workflow; their nodes 4, 6, 7 are linked to the nodes 1, 1, 3
+-- of the resources 1, 1, 2 they stand for
+#guard ((wfExpr wP wops2 wf2 false 5 (startState wops2 wf2) 3).toOption.map (fun p => p.1.indirection))
+  == some [(5, 1), (6, 1), (7, 2)]
+#guard ((addWorkflow wP exG wops2 {} false wf2).toOption.map (fun p =>
+    (p.1.srcNodes, p.1.sharedNodes, [(4, 1), (6, 1), (7, 3)].all (fun e => p.1.fd.frm.contains e))))
+  == some ([(4, 0), (5, 4), (6, 6), (7, 7)], [(1, 1), (2, 3), (3, 5)], true)
+
 end Tfv.C12
